@@ -432,7 +432,9 @@ def check(ctx):
     rep.floor("pow overrides of self_inverses classes", n_pow_si, 5)
     rep.floor("pow overrides reducing z % N", n_period, 12)
     rep.floor("z % N periods proved on the exact matrix", n_period_proved, 7)
+    from .c03_adj import adjrep
     from .c03_extra import extra
 
     extra(ctx, rep)
+    adjrep(ctx, rep)
     return rep
